@@ -51,6 +51,9 @@ func c05Run(f []string) string {
 	if ans, ok := c05LocksetRun(f); ok {
 		return ans
 	}
+	if ans, ok := c05StageRun(f); ok {
+		return ans
+	}
 	if f[0] != "agg" {
 		return "bad-op"
 	}
@@ -145,6 +148,9 @@ func c05Gen(r *Rand, tier string) []string {
 	if os.Getenv("VERIF_C05_ONLY") == "trace" { // stress runs of the trace tie alone
 		return aggTraceGen(r, tier)
 	}
+	if os.Getenv("VERIF_C05_ONLY") == "stages" { // the schedule search alone
+		return append(c05StageCases(r, "search", []string{"d"}), c05LocksetGen(r, tier)...)
+	}
 	n := 14
 	if tier == "thorough" {
 		n = 150
@@ -181,6 +187,7 @@ func c05Gen(r *Rand, tier string) []string {
 		out = append(out, fmt.Sprintf("agg %s %d %d %d %s %d %d", HexList([][]byte{data}), Pick(r, []int{1, 2}), 1, 1, script, 0, Pick(r, []int{50, 70})))
 	}
 	out = append(out, c05LocksetGen(r, tier)...)
+	out = append(out, c05StageCases(r, tier, []string{"d"})...)
 	return append(out, aggTraceGen(r, tier)...)
 }
 
@@ -203,6 +210,12 @@ func c05Stats(cases []string) map[string]int {
 			continue
 		}
 		if c05LocksetStats(st, c) {
+			continue
+		}
+		if f[0] == "stages" {
+			st["stages.cases"]++
+			st["stages.workers."+f[2]]++
+			st["stages.evaluations.total"] = int(c05StageEvals)
 			continue
 		}
 		st["workers."+f[2]]++
